@@ -29,6 +29,7 @@ def dispatch (fields : List String) : Verdict :=
   | "C18" :: rest => handleC18 rest
   | "C02" :: rest => handleC02 rest
   | "C03" :: rest => handleC03 rest
+  | "C04" :: "eval" :: rest => handleEval true rest
   | "C04" :: rest => handleC04 rest
   | "C05" :: "eval" :: rest => handleEval false rest
   | "C05" :: rest => handleC05 rest
